@@ -26,17 +26,20 @@ REQUIRED = [
     "Pixman.Props.C11.entrySpec_error",
     "Pixman.Props.C11.entrySpec_exact",
     "Pixman.Props.C11.multiply_spec",
-    "Pixman.Props.C11.bounds_contains_corners_partial",
-    "Pixman.Props.C11.transformPoint3116_abort_iff",
-    "Pixman.Props.C11.transformPoint_never_aborts_partial",
+    "Pixman.Props.C11.bounds_contains_corners",
+    "Pixman.Props.C11.bounds_never_aborts",
+    "Pixman.Props.C11.transformPoint3116_never_aborts",
+    "Pixman.Props.C11.transformPoint_never_aborts",
     "Pixman.Props.C11.transformPoint3116_projective_exact",
     "Pixman.Props.C11.transformPoint_exact",
     "Pixman.Props.C11.transformPoint3116_projective_reduced",
     "Pixman.Props.C11.transformPoint_within_one_partial",
     "Pixman.Props.C11.applyPair_spec",
-    "Pixman.Props.C11.translate_spec_partial",
-    "Pixman.Props.C11.rotate_spec_partial",
+    "Pixman.Props.C11.applyPair_exact",
+    "Pixman.Props.C11.translate_spec",
+    "Pixman.Props.C11.rotate_spec",
     "Pixman.Props.C11.fixedInverse_spec",
+    "Pixman.Props.C11.scale_spec",
 ]
 
 FLOAT_OPS = ("f_from", "f_to", "f_invert", "f_point", "f_bounds")   # oracle only; "invert" is also mirrored bit-exactly on Lean Float
@@ -199,7 +202,7 @@ def run(ctx):
         "bounds: containment is judged to the 16.16 resolution of the transformed corner",
         "float family (invert, f_transform_*, conversions): no theorem (partial); invert is mirrored operation by operation on Lean Float (bit-exact correspondence) and judged by the oracle, the f_* entry points are oracle only; invert is judged on entries <= 4.0 "
         "(exact double arithmetic) for singular input and on matrices whose exact inverse stays below 30000.0 for accuracy; NaN/inf inputs are not generated",
-        "signed overflow that is undefined behaviour in C (negation of INT32_MIN, within_epsilon differences, pixman_fixed_ceil) is modelled as the "
+        "signed overflow that is undefined behaviour in C (negation of INT32_MIN inside the void pixman_transform_init_rotate, within_epsilon differences) is modelled as the "
         "two's complement wrap the compiled library shows",
         "int64 sums inside pixman_transform_point_31_16*/multiply are modelled unbounded; Props.C11.tmp_in_int64/mulEntry_in_int64 prove they fit",
     ]
